@@ -1093,7 +1093,7 @@ def corr_subst(ck, n):
 def corr_resolve(ck, n):
     """resolve_tlib_cells(): model (resolveCells = substitute folded over the snapshot of the nodes) vs real code"""
     rng = ck.rng
-    raised = covered = covered_ds = covered_gen = covered_gen_only = covered_ds_gen = 0
+    raised = covered = covered_ds = covered_gen = covered_gen_only = covered_ds_gen = run_cov = run_cov_multi = 0
     import collections
     ds_tally = collections.Counter()
     for it in range(n):
@@ -1173,9 +1173,39 @@ def corr_resolve(ck, n):
                         semtag = 'sem-hyp:uncovered:' + ('host-wfnt' if hyp[4] != '1' else hyp[7].split(':')[0])
             except Exception as ex:
                 ck.broken_tie('resolve_sem hypotheses', f'driver: {type(ex).__name__}: {ex}'[:300], inp={'request': req[:4000]})
+        # hypotheses of the whole-run PROGRESS theorem C10.resolve_run_isSome (audit 2, finding 6) on EVERY case, raising ones included:
+        # original circuit wfNoTrail with gap-free forks (domain facts of the generators), libOKB (domain fact for the built-in libraries:
+        # theorem library_impls_ok), resolveInstB (per-instance clauses on the circuit as it is when the substitution starts; does not
+        # contain success).  Inside them the model returns a circuit with wfNoTrail and gap-free forks (theorem) - so must the real code.
+        runtag = 'runSome-hyp:not-evaluated'
+        try:
+            rh = common.run_driver(['resolveok' + req[len('resolve'):]])[0].split()
+            if len(rh) < 15:
+                ck.broken_tie('resolve_run_isSome hypotheses', f'driver answer has {len(rh)} fields', inp={'request': req[:4000]})
+            else:
+                rnames = ['host-wfNoTrail', 'host-forks-gapfree', 'libOK', 'inst']
+                rvals = [rh[4], rh[8], rh[9], rh[10]]
+                rfailed = [nm for nm, v in zip(rnames, rvals) if v != '1']
+                if (rh[12] == '1') != (not rfailed):
+                    ck.broken_tie('resolve_run_isSome hypotheses', f'conjunction = {rh[12]} but clauses {rvals}', inp={'request': req[:4000]})
+                if not rfailed:
+                    runtag = 'runSome-hyp:covered'; run_cov += 1
+                    if len(insts0) >= 2: run_cov_multi += 1
+                    if real == 'raise' or rh[13] != '1' or rh[6] != '1' or rh[14] != '1':
+                        ck.broken_tie('resolve_run_isSome: inside the hypotheses the run must succeed (result wfNoTrail, gap-free forks)',
+                                      f'real {"raises" if real == "raise" else "returns"}, model isSome = {rh[13]}, wfNoTrail = {rh[6]}, '
+                                      f'forksDense = {rh[14]}', inp={'request': req[:4000]})
+                else:
+                    runtag = 'runSome-hyp:uncovered:' + (rh[11] if rfailed[0] == 'inst' else rfailed[0])
+                    if rfailed[0] in ('host-wfNoTrail', 'host-forks-gapfree') or (rfailed[0] == 'libOK' and libtag in LIBS):
+                        ck.broken_tie('resolve_run_isSome: domain fact fails on a generated case', rfailed[0], inp={'request': req[:4000]})
+        except Exception as ex:
+            ck.broken_tie('resolve_run_isSome hypotheses', f'driver: {type(ex).__name__}: {ex}'[:300], inp={'request': req[:4000]})
         ck.case(key=('resolve', req), nontrivial=real != 'raise' and len(kinds) > 0,
-                tag=['stream:corr-resolve', f'lib:{libtag}', f'instances:{min(len(kinds), 4)}', f"resolve-result:{'raise' if real == 'raise' else 'ok'}", semtag, dstag] +
+                tag=['stream:corr-resolve', f'lib:{libtag}', f'instances:{min(len(kinds), 4)}', f"resolve-result:{'raise' if real == 'raise' else 'ok'}", semtag, dstag, runtag] +
                     (['gen:listed-families-only'] if only else []))
+    ck.extra['corr_resolve_in_hypotheses_of_resolve_run_isSome'] = run_cov
+    ck.extra['corr_resolve_in_hypotheses_of_resolve_run_isSome_two_or_more_instances'] = run_cov_multi
     ck.extra['corr_resolve_in_hypotheses_of_resolve_datasheet_sem'] = covered_ds
     ck.extra['corr_resolve_in_hypotheses_of_resolve_datasheet_sem_general_only'] = covered_ds_gen
     ck.extra['corr_resolve_ds_hyp'] = dict(ds_tally)
